@@ -609,6 +609,151 @@ def refine_family(chk, prop, exe, bdir, rng, n):
     return acc, len(rej)
 
 
+# ------------------------------------------------------------------------------------------------------------------
+# C08: Lifecycle.tla (implementation-shaped model of the API-level life cycle) - model checking + trace refinement
+
+OPNUM = {"configure": 1, "start": 2, "stop": 3, "abort": 4, "state": 5, "shutdown": 6}
+
+
+def gen_lifecycle_refine(rng, out):
+    lines = sched_lines(rng, 7)
+    streams = [stream_line(rng, s, "lifecycle") for s in range(2)]
+    for d in streams:
+        d["frames"] = rng.choice([1, 2, 4, -1])
+        d["trigger"] = 0
+        d["delay_ms"] = 0
+    fb = max(frame_bytes(d["w"], d["h"], d["type"]) for d in streams)
+    lines += ["cap %d" % (int(fb * rng.choice([2.5, 4.0, 8.0])) + 3), "fill 0", "streams 2", "noinit 1"]
+    CFGS = ["0 0 -1 -1", "0 0 1 1", "1 1 -1 -1", "-1 -1 0 0", "0 1 1 0", "1 0 -1 -1", "-1 -1 -1 -1"]
+    prog, cur, running = [], None, False
+    for step in range(rng.randint(3, 9)):
+        r = rng.random()
+        if step == 0 and rng.random() < 0.7:
+            r = 0.0
+        if r < 0.3:
+            c = cur if (running and cur is not None) else rng.choice(CFGS)
+            prog += ["cfg"] + c.split()
+            if not running:
+                cur = c
+        elif r < 0.55:
+            prog += ["start"]
+            if cur is not None and cur != "-1 -1 -1 -1":
+                running = True
+        elif r < 0.68:
+            finite = cur is None or all(streams[s]["frames"] >= 0 for s in range(2) if cur.split()[2 * s] != "-1")
+            prog += ["stop"] if (finite or not running) else ["abort"]
+            running = False
+        elif r < 0.8:
+            prog += ["abort"]
+            running = False
+        elif r < 0.9:
+            prog += ["state"]
+        else:
+            prog += ["yield", str(rng.choice([1, 10, 60, 200]))]
+    for s, d in enumerate(streams):
+        lines.append(fmt_stream(s, d))
+    lines += ["prog " + " ".join(prog), "out " + out]
+    fin = "F%d%d" % (1 if streams[0]["frames"] >= 0 else 0, 1 if streams[1]["frames"] >= 0 else 0)
+    return "\n".join(lines) + "\n", fin
+
+
+def project_lifecycle(trace_path):
+    out = []
+    for l in open(trace_path):
+        e = json.loads(l)
+        k = e["e"]
+        if k == "Api":
+            if e["op"] not in OPNUM:
+                continue
+            if e["ph"] == "call":
+                out.append({"e": "ApiCall", "a": OPNUM[e["op"]], "b": 0})
+            else:
+                out.append({"e": "ApiRet", "a": OPNUM[e["op"]], "b": 0 if e["op"] == "shutdown" else e["st"]})
+        elif k in ("DevOpen", "DevClose"):
+            out.append({"e": k, "a": 0 if e["kind"] == "cam" else 1, "b": e["s"]})
+        elif k in ("CamStart", "CamStop", "StorStart", "StorStop"):
+            out.append({"e": k, "a": e["s"], "b": 0})
+    return out
+
+
+def lifecycle_models(chk, bdir, thorough):
+    """TLC on Lifecycle.tla: safety for every finite/infinite combination, liveness (stop/abort/shutdown return)."""
+    jobs = []
+    for fin in ("F10", "F11", "F00"):
+        t = "CONSTANTS MaxCalls = %d\nCONSTANT Finite <- %s\nSPECIFICATION Spec\nVIEW View\n" % (9 if thorough else 6, fin)
+        t += "INVARIANTS NoBad ReportedStateOK ArmedAfterStop DriverTruth\nCHECK_DEADLOCK FALSE\n"
+        jobs.append(("Lifecycle safety %s" % fin, write_cfg(os.path.join(bdir, "lc_%s.cfg" % fin), t)))
+    t = "CONSTANTS MaxCalls = %d\nCONSTANT Finite <- F10\nSPECIFICATION FairSpec\nINVARIANT NoBad\nPROPERTY Returns\nCHECK_DEADLOCK FALSE\n" % (5 if thorough else 4)
+    jobs.append(("Lifecycle liveness F10", write_cfg(os.path.join(bdir, "lc_live.cfg"), t)))
+    states = trans = 0
+    with cf.ThreadPoolExecutor(max_workers=4) as ex:
+        res = list(ex.map(lambda j: (j[0], tlc("MCLifecycle", j[1], bdir, workers=4, timeout=1800, heap="6g")), jobs))
+    for what, r in res:
+        if r.violated:
+            raise Broken("%s: the model violates %s (%s)" % (what, r.violated, r.outpath))
+        tlc_or_broken(r, what)
+        require_coverage(r, ["CfgCamOpen", "StartCam", "WCamStop", "JoinRet", "ShutSto"], what)
+        states += r.distinct
+        trans += r.generated
+        chk.cov.setdefault("models", []).append({"model": what, "distinct_states": r.distinct, "transitions": r.generated,
+                                                 "complete": r.queue == 0, "wall_s": round(r.wall, 1)})
+    chk.set("states", states)
+    chk.set("transitions", trans)
+
+
+def lifecycle_refine(chk, exe, bdir, rng, n):
+    jobs = []
+    for i in range(n):
+        out = os.path.join(bdir, "lr_%d.ndjson" % i)
+        cfgp = os.path.join(bdir, "lr_%d.cfg" % i)
+        txt, fin = gen_lifecycle_refine(rng, out)
+        open(cfgp, "w").write(txt)
+        jobs.append((cfgp, out, fin, txt))
+    res = run_many(exe, [j[0] for j in jobs], timeout=120)
+    for j, (rc, o) in zip(jobs, res):
+        if rc != 0:
+            raise Broken("pipe_vs exited abnormally (rc=%s) on a lifecycle refine scenario:\n%s" % (rc, j[3]))
+
+    def one(j):
+        cfgp, out, fin, txt = j
+        if any('"Hang"' in l or '"Crash"' in l for l in open(out)):
+            return None
+        evs = project_lifecycle(out)
+        tr = out + ".abs"
+        with open(tr, "w") as f:
+            for e in evs:
+                f.write(json.dumps(e) + "\n")
+        mc = out + ".cfg"
+        write_cfg(mc, "CONSTANTS MaxCalls = 24\nCONSTANT Finite <- %s\nSPECIFICATION TSpec\nINVARIANT NotAccepted\nACTION_CONSTRAINT TrackMax\n"
+                      "POSTCONDITION Report\nCHECK_DEADLOCK FALSE\n" % fin)
+        r = tlc("LifecycleTrace", mc, bdir, workers=1, timeout=600, env={"TRACE": tr}, coverage=False, heap="3g", dfs_queue=True)
+        if r.violated == "NotAccepted":
+            return True, len(evs), txt, evs, ""
+        if r.error or r.timed_out or r.rc not in (0,):
+            raise Broken("LifecycleTrace failed on %s: rc=%s %s\n%s" % (tr, r.rc, r.error, r.out[-1500:]))
+        mx = [l for l in r.printed if l.startswith('<<"MAXL"')]
+        return False, len(evs), txt, evs, (mx[0] if mx else "")
+    with cf.ThreadPoolExecutor(max_workers=NCPU) as ex:
+        outs = [o for o in ex.map(one, jobs) if o is not None]
+    acc = sum(1 for o in outs if o[0])
+    rej = [o for o in outs if not o[0]]
+    chk.set("impl_traces_checked_against_Lifecycle_tla", len(outs))
+    chk.set("impl_traces_accepted_by_Lifecycle_tla", acc)
+    for o in rej[:3]:
+        chk.drift_note("an execution of the real runtime is not a behaviour of Lifecycle.tla (%s): %s ... events %s" % (
+            o[4], [l for l in o[2].splitlines() if l.startswith("prog")], " ".join("%s(%s,%s)" % (e["e"], e["a"], e["b"]) for e in o[3])))
+    if rej:
+        chk.assume("DRIFT: %d of %d executions are not behaviours of Lifecycle.tla; the model-level result does not transfer for this run" % (len(rej), len(outs)))
+    if outs:
+        chk.sample({"abstract_trace_checked_against_Lifecycle": outs[0][3][:16]})
+    for j in jobs:
+        for f in (j[0], j[1], j[1] + ".abs", j[1] + ".cfg"):
+            try:
+                os.remove(f)
+            except OSError:
+                pass
+
+
 def main(prop, tier):
     chk = Check(prop, tier, "model_checking" if prop not in ("C09",) else "fault_enumeration")
     bdir = build_dir(prop)
@@ -632,6 +777,9 @@ def main(prop, tier):
         os.remove(allp)
     if prop in ("C04", "C06", "C07", "C09", "C10"):
         refine_family(chk, prop, exe, bdir, rng, 200 if tier == "thorough" else 48)
+    if prop == "C08":
+        lifecycle_models(chk, bdir, tier == "thorough")
+        lifecycle_refine(chk, exe, bdir, rng, 300 if tier == "thorough" else 64)
     collect_models(chk, mfuts)
     mex.shutdown()
     if total_events < 1000:
